@@ -170,11 +170,14 @@ class Session:
         self.clock = 0
         self.errors: list[str] = []
         self.reports: list[tuple[str, str]] = []
-        self.commit_hooks = []  # callables(session, event) run at each commit (crash snapshots)
+        self.commit_hooks = []  # callables(session, event, db) run at each commit (crash snapshots)
+        self.gate_hooks = []  # callables(session, gate_name) run before each scheduling point
+        self.report_hooks = []  # callables(session, tag, msg) run at each reporter message
         self.ncommit = 0
         self.phase = 0
         self.job_labels: dict[int, str] = {}
         self.task_ids: dict[int, int] = {}
+        self.launch_info: dict = {}
 
     def task_id(self) -> int:
         t = asyncio.current_task()
@@ -188,6 +191,8 @@ class Session:
         return rec
 
     async def gate(self, name: str):
+        for hook in list(self.gate_hooks):
+            hook(self, name)
         if self.ctl is None:
             await asyncio.sleep(0)
         else:
@@ -206,6 +211,8 @@ class Recorder(BaseAsyncRPCClient):
             tag, msg = a[0], a[1]
             pages = a[2] if len(a) > 2 else k.get("pages")
             CUR.reports.append((tag, str(msg)))
+            for hook in list(CUR.report_hooks):
+                hook(CUR, tag, str(msg))
             if tag in ("START", "SKIP", "SUCCESS", "FAIL", "DEFERRED", "REMOVE", "ERROR", "NOSKIP", "DROPAMEND", "PHASE"):
                 text = str(msg)
                 if tag == "ERROR" and pages:
@@ -520,6 +527,8 @@ async def fake_launch(command, *, shell, env, cwd, mp_ctx, run):
     cmd = run.step.command_and_workdir[0]
     resources = []
     ses.emit("cmd_start", job=job, step=label, clock=_logical_ns())
+    # what a real command gets on its command line: the declaration as of its launch
+    ses.launch_info[job] = await _declaration(h, run.step)
     reads: list[str] = []
     rc = 0
     stderr = ""
@@ -542,6 +551,29 @@ async def fake_launch(command, *, shell, env, cwd, mp_ctx, run):
         ses.emit("step_exc", job=job, step=label, exc=type(exc).__name__, usage=isinstance(exc, UsageError), msg=str(exc)[:600])
     ses.emit("cmd_end", job=job, step=label, rc=rc, clock=_logical_ns())
     return ChildOutcome(rc, "", stderr)
+
+
+class _Decl:
+    def __init__(self, inp, env, out, vol):
+        self.inp, self.env, self.out, self.vol = inp, env, out, vol
+
+
+async def _declaration(h, step) -> _Decl:
+    """The step's own declaration (initial inputs, env names, outputs), detached paths included.
+
+    A real command has these on its command line, fixed when the plan defined the step; they do
+    not change when some other step detaches an input node while the command is starting.
+    """
+    async with h.db:
+        inp = sorted(r.path for r in step._paths("source", raw=True, dynamic=False))
+        out = sorted(
+            r.path for r in step._paths("sink", raw=True, dynamic=False) if r.state.name != "VOLATILE"
+        )
+        vol = sorted(
+            r.path for r in step._paths("sink", raw=True, dynamic=False) if r.state.name == "VOLATILE"
+        )
+        env = sorted(step.env_deps(dynamic=False))
+    return _Decl(inp, env, out, vol)
 
 
 def out_content(label: str, path: str, reads: list[str]) -> str:
@@ -630,7 +662,7 @@ async def _run_ops(ses: Session, h, job, label, cmd, ops, env, reads):
             world.delete(op[1])
             ses.emit("unlink", job=job, step=label, path=op[1], clock=_logical_ns())
         elif kind == "read_declared":
-            info = await h.get_step_info(job)
+            info = ses.launch_info[job]
             for p in sorted(str(x) for x in info.inp):
                 text = world.read(p)
                 ses.emit("read", job=job, step=label, path=p, content="NULL" if text is None else text, clock=_logical_ns())
@@ -638,11 +670,11 @@ async def _run_ops(ses: Session, h, job, label, cmd, ops, env, reads):
                     raise ScriptAbort(1, f"FileNotFoundError: {p}")
                 reads.append(f"{p}={text}")
         elif kind == "getenv_declared":
-            info = await h.get_step_info(job)
+            info = ses.launch_info[job]
             for name in sorted(info.env):
                 reads.append(f"${name}={env.get(name)!r}")
         elif kind == "write_declared":
-            info = await h.get_step_info(job)
+            info = ses.launch_info[job]
             for p in sorted(str(x) for x in info.out):
                 text = out_content(cmd, p, reads)
                 world.write(p, text)
@@ -775,6 +807,8 @@ def run_serve(
     ctl: Controller | None = None,
     during: list | None = None,
     commit_hooks=None,
+    gate_hooks=None,
+    report_hooks=None,
     log_state: bool = True,
     tag: str = "",
     fresh: bool = False,
@@ -792,6 +826,10 @@ def run_serve(
     ses = Session(world, project, ctl, log_state=log_state)
     if commit_hooks:
         ses.commit_hooks.extend(commit_hooks)
+    if gate_hooks:
+        ses.gate_hooks.extend(gate_hooks)
+    if report_hooks:
+        ses.report_hooks.extend(report_hooks)
     old_cwd = os.getcwd()
     old_env = dict(os.environ)
     os.chdir(world.root)
